@@ -457,6 +457,9 @@ func Run(ctx *common.Ctx) int {
 	ev, ok := dS2.S2(ctx, specs, false, 0, func(n int) []int { return []int{500, 1024} })
 	cmp.Count("S2 periodic patterns with bit flips (rank, linear complexity m=500, Maurer)", ev)
 	exhaustive = exhaustive && ok
+	fev, fok := dS2.Fillers(ctx, []int{1024, 1025, 1087, 1088, 2047, 2048, 2049, 4096, 8967, 8968, 9000, 9024, 20000}, 3, uint64(ctx.Seed))
+	cmp.Count("fillers and biased fillers at rank / linear-complexity / Maurer boundary lengths", fev)
+	exhaustive = exhaustive && fok
 	cov := cmp.Coverage("rank: every kxk matrix (k<=4; quick: a quarter of the 4x4) in six embeddings, breadth-first search of depth "+fmt.Sprint(depth)+" over elementary operations from every rank, all 27 class sequences; "+
 		"linear complexity: every m-bit block m=4.."+fmt.Sprint(maxM)+", every block pair m<=8, every complexity L at m=500/1000 (unit impulses), LFSR outputs, m=5000 at selected L; Maurer: all short test segments over six letters after three initial segments; "+
 		"any panic is a violation; distinct = distinct (call, reference P) pairs", exhaustive,
